@@ -47,6 +47,12 @@ type WorkerOut struct {
 	Seeds      [2]uint64         `json:"seeds"`
 	Meta       map[string]any    `json:"meta"`
 	Digests    map[string]string `json:"digests,omitempty"` // run seed -> ledger-history digest
+	Directed   []DirectedOut     `json:"directed,omitempty"`
+}
+
+type DirectedOut struct {
+	Violation *Violation `json:"violation,omitempty"`
+	Trace     *Trace     `json:"trace"`
 }
 
 func TestWorker(t *testing.T) {
@@ -104,6 +110,17 @@ func TestWorker(t *testing.T) {
 		return
 	}
 
+	if job.Worker == 0 && job.SingleSeed == 0 && len(job.SeedList) == 0 {
+		for _, mk := range ps.Directed {
+			tr := mk()
+			res := safeReplay(ps, tr)
+			d := DirectedOut{Trace: tr}
+			if res != nil {
+				d.Violation = res.Violation
+			}
+			out.Directed = append(out.Directed, d)
+		}
+	}
 	seen := map[string]bool{}
 	for i := job.Worker; ; i += job.Workers {
 		if job.MaxRuns > 0 && out.Runs >= job.MaxRuns {
